@@ -294,6 +294,12 @@ func (r *fileReader) rename(oldPath, newPath string) error {
 	if err := RenameFile(oldPath, newPath, lock); err != nil {
 		err = errRenameFail(zap.String("old", oldPath), zap.String("new", newPath), err)
 		log.Error("rename file fail", zap.Error(err))
+		if isOpen {
+			// the file keeps its old name and must stay readable
+			if e := r.ReOpen(); e != nil {
+				log.Error("reopen file after failed rename fail", zap.String("file", oldPath), zap.Error(e))
+			}
+		}
 		return err
 	}
 	r.name = newPath
